@@ -4,6 +4,7 @@ import (
 	"encoding/json"
 	"errors"
 	"fmt"
+	"io"
 	"strings"
 
 	"github.com/llir/llvm/ir"
@@ -24,6 +25,10 @@ type C19Step struct {
 	K     int    `json:"k"`               // bytes accepted before the failure; -1 = never fail
 	Shape string `json:"shape"`           // short: failing Write accepts up to k and returns the error; fullerr: failing Write accepts all of p and returns the error
 	Chunk int    `json:"chunk,omitempty"` // >0: a healthy writer that forwards in chunks of this many bytes
+	// Kind selects which optional interfaces the writer also implements (code
+	// may take another path for them): "" = io.Writer only, "string" =
+	// io.StringWriter too, "byte" = io.ByteWriter too, "both".
+	Kind string `json:"kind,omitempty"`
 }
 
 // C19Scenario is one episode: a module in a start state and a short sequence
@@ -92,6 +97,39 @@ func (w *simWriter) Write(p []byte) (int, error) {
 	return room, w.err
 }
 
+// Writers that also implement optional interfaces; every method goes through
+// the same accounting as Write.
+type simWriterS struct{ *simWriter }
+
+func (w simWriterS) WriteString(s string) (int, error) { return w.simWriter.Write([]byte(s)) }
+
+type simWriterB struct{ *simWriter }
+
+func (w simWriterB) WriteByte(c byte) error {
+	_, err := w.simWriter.Write([]byte{c})
+	return err
+}
+
+type simWriterSB struct{ *simWriter }
+
+func (w simWriterSB) WriteString(s string) (int, error) { return w.simWriter.Write([]byte(s)) }
+func (w simWriterSB) WriteByte(c byte) error {
+	_, err := w.simWriter.Write([]byte{c})
+	return err
+}
+
+func (w *simWriter) as(kind string) io.Writer {
+	switch kind {
+	case "string":
+		return simWriterS{w}
+	case "byte":
+		return simWriterB{w}
+	case "both":
+		return simWriterSB{w}
+	}
+	return w
+}
+
 type c19Outcome struct {
 	class, sig, detail string
 	faultFired         bool
@@ -105,7 +143,7 @@ func c19Run(sc *C19Step, m *ir.Module, S string) *c19Outcome {
 	w := &simWriter{k: sc.K, shape: sc.Shape, chunk: sc.Chunk, err: injected, lateErr: errors.New("late error: Write called after a failed Write")}
 	var n int64
 	var err error
-	if p, msg := protect(func() { n, err = m.WriteTo(w) }); p {
+	if p, msg := protect(func() { n, err = m.WriteTo(w.as(sc.Kind)) }); p {
 		return &c19Outcome{class: "panic", sig: "panic in WriteTo: " + normDigits(clip(msg, 160)), detail: msg}
 	}
 	out := &c19Outcome{faultFired: w.faultFired, midWrite: w.midWrite}
@@ -251,7 +289,10 @@ func c19Search() {
 				} else {
 					sum.Counters["healthy writer"]++
 				}
-				distinct.add(hash64(sc.Module, sc.Start, st.Shape, fmt.Sprint(st.K), fmt.Sprint(st.Chunk)))
+				distinct.add(hash64(sc.Module, sc.Start, st.Shape, fmt.Sprint(st.K), fmt.Sprint(st.Chunk), st.Kind))
+				if st.Kind != "" {
+					sum.Counters["writes into a writer that also implements io."+map[string]string{"string": "StringWriter", "byte": "ByteWriter", "both": "StringWriter and io.ByteWriter"}[st.Kind]]++
+				}
 			}
 			if len(sum.Samples) < 4 && sum.Counters["episodes (fresh simulator state, module rebuilt)"]%131 == 1 {
 				sum.Samples = append(sum.Samples, sc)
@@ -288,8 +329,12 @@ func c19Search() {
 					if (thorough && len(S) <= 16384 && (k0/episodeLen)%2 == 1) || (k0/episodeLen)%13 == 5 {
 						sc.Start = "fresh"
 					}
+					kind := []string{"", "string", "byte", "both"}[(k0/episodeLen)%4]
+					if !thorough && (k0/episodeLen)%3 != 0 {
+						kind = "" // quick: most episodes use the plain writer
+					}
 					for k := k0; k < k0+episodeLen && k <= len(S); k++ {
-						sc.Steps = append(sc.Steps, C19Step{K: k, Shape: shape})
+						sc.Steps = append(sc.Steps, C19Step{K: k, Shape: shape, Kind: kind})
 					}
 					// A healthy write after the failures: what a failed write left behind must not leak into it.
 					sc.Steps = append(sc.Steps, C19Step{K: -1, Shape: "short"})
@@ -305,7 +350,7 @@ func c19Search() {
 			for e := 0; e < 40 && failures < *flagMaxFail; e++ {
 				sc := &C19Scenario{Module: src.Name, Start: "printed"}
 				for i := 0; i < episodeLen-1; i++ {
-					sc.Steps = append(sc.Steps, C19Step{K: r.intn(len(S) + 1), Shape: []string{"short", "fullerr"}[r.intn(2)]})
+					sc.Steps = append(sc.Steps, C19Step{K: r.intn(len(S) + 1), Shape: []string{"short", "fullerr"}[r.intn(2)], Kind: []string{"", "", "string", "byte", "both"}[r.intn(5)]})
 				}
 				sc.Steps = append(sc.Steps, C19Step{K: -1, Shape: "short"})
 				if !mine() {
@@ -389,6 +434,9 @@ func c19Candidates(raw json.RawMessage) []interface{} {
 	}
 	if last.Chunk != 0 {
 		mod(func(st *C19Step) { st.Chunk = 0 })
+	}
+	if last.Kind != "" {
+		mod(func(st *C19Step) { st.Kind = "" })
 	}
 	if last.K > 0 {
 		mod(func(st *C19Step) { st.K = 0 })
